@@ -64,8 +64,11 @@ func (c *RapidChooser) Cut(h *Hand) string {
 	if !cut {
 		return ""
 	}
-	if rapid.IntRange(0, 2).Draw(c.RT, "cutHow") == 0 {
+	switch rapid.IntRange(0, 5).Draw(c.RT, "cutHow") {
+	case 0, 1:
 		return "load"
+	case 2:
+		return "rollback"
 	}
 	return "new"
 }
